@@ -315,6 +315,30 @@ func famC19(r *Run) {
 			r.addCli("G-cli-model", []string{expr}, viaFile, &in, code, stdout)
 		}
 	}
+	// documents wrapped in white space that JSON does not allow: invalid input on both channels
+	for _, input := range cliNonJSONSpace() {
+		for _, viaFile := range []bool{false, true} {
+			args := []string{"@"}
+			stdin := input
+			if viaFile {
+				f := filepath.Join(dir, "in.json")
+				ioutil.WriteFile(f, []byte(input), 0o644)
+				args = []string{"-input", f, "@"}
+				stdin = ""
+			}
+			stdout, stderr, code := runJpgo(bin, args, stdin)
+			var data interface{}
+			if json.Unmarshal([]byte(input), &data) == nil {
+				continue
+			}
+			if code == 0 || stdout != "" {
+				r.violate("G-cli-space", "@", nil, "input that is not JSON (white space JSON does not allow around the document), but jpgo exits with status 0 or prints a result",
+					fmt.Sprintf("viaFile=%v input=%q exit=%d stdout=%q stderr=%q", viaFile, input, code, stdout, stderr))
+			}
+			in := input
+			r.addCli("G-cli-model", []string{"@"}, viaFile, &in, code, stdout)
+		}
+	}
 	// usage errors and unreadable file
 	for _, a := range [][]string{{}, {"a", "b"}, {"-input", filepath.Join(dir, "missing.json"), "a"}} {
 		stdout, _, code := runJpgo(bin, a, "{}")
